@@ -143,7 +143,10 @@ def binTags (name : String) (h g : Nat) (a b : Ent) (t t' : Two Int) : List Stri
 def step (st : St) (toks : List Val) (impl : String) : St × Out :=
   match toks with
   | [.w "new", .i h, .i kind] =>
-    (st.put h.toNat { set := AnySet.emptyOfKind kind.toNat, spec := [] }, { model := "ok", spec := some "ok", tags := [s!"new.{kind}"] })
+    -- kind 2 = the zero value of maps.Set (a nil map): behaves as the empty map-backed set for every non-mutating method
+    -- (the generator never mutates it directly; `Add` on a nil map panics in Go)
+    let k := if kind == 2 then 0 else kind.toNat
+    (st.put h.toNat { set := AnySet.emptyOfKind k, spec := [] }, { model := "ok", spec := some "ok", tags := [s!"new.{kind}"] })
   | [.w "fromslice", .i h, .i kind, l] =>
     match l.ints? with
     | some xs =>
